@@ -100,7 +100,15 @@ struct Out<'a> {
 }
 
 impl<'a> Out<'a> {
-    fn push(&mut self, props: Props, class: &'static str, msg: String) {
+    fn push(&mut self, props: Props, class: &'static str, mut msg: String) {
+        if msg.len() > 700 {
+            let mut cut = 700;
+            while !msg.is_char_boundary(cut) {
+                cut -= 1;
+            }
+            msg.truncate(cut);
+            msg.push_str(" ...");
+        }
         if self.v.len() < 64 {
             self.v.push(Viol { props, class, msg, step: self.step });
         }
@@ -120,6 +128,26 @@ fn evict_to(list: &mut Vec<XE>, budget: usize) -> Vec<XE> {
 
 fn xe(e: &EObs) -> XE {
     XE { id: e.id, vtok: e.vtok, size: e.size }
+}
+
+/// sorted copy for O(log n) membership tests (caches of tens of thousands of entries occur)
+fn sorted(v: &[u32]) -> Vec<u32> {
+    let mut w = v.to_vec();
+    w.sort_unstable();
+    w
+}
+
+fn has(sorted_v: &[u32], x: u32) -> bool {
+    sorted_v.binary_search(&x).is_ok()
+}
+
+/// id lists in messages: at most 12 elements are spelled out
+fn short(v: &[u32]) -> String {
+    if v.len() <= 12 {
+        format!("{:?}", v)
+    } else {
+        format!("[{} ids: {:?} .. {:?}]", v.len(), &v[..6], &v[v.len() - 3..])
+    }
 }
 
 fn count_ev(events: &[Ev], kind: u8) -> usize {
@@ -618,11 +646,17 @@ pub fn check_step(s: &Step, tr: &mut Tracker, viols: &mut Vec<Viol>) -> Decides 
             let a_list: Vec<XE> = post.entries.iter().map(xe).collect();
             let ids_x: Vec<u32> = x.iter().map(|e| e.id).collect();
             let ids_a: Vec<u32> = a_list.iter().map(|e| e.id).collect();
+            let set_x = sorted(&ids_x);
+            let set_a = sorted(&ids_a);
+            // id -> index into a_list
+            let mut idx_a: Vec<(u32, usize)> = a_list.iter().enumerate().map(|(i, e)| (e.id, i)).collect();
+            idx_a.sort_unstable();
+            let find_a = |id: u32| idx_a.binary_search_by_key(&id, |p| p.0).ok().map(|j| &a_list[idx_a[j].1]);
             let is_retain = matches!(s.op.kind, OpKind::Retain { .. });
             let is_forget = matches!(&s.op.kind, OpKind::IterScript { end: EndMode::Forget, .. });
             if !is_forget {
                 // departures the spec does not ask for
-                let missing: Vec<u32> = ids_x.iter().copied().filter(|i| !ids_a.contains(i)).collect();
+                let missing: Vec<u32> = ids_x.iter().copied().filter(|i| !has(&set_a, *i)).collect();
                 if !missing.is_empty() {
                     let mut props = C03;
                     let mut class = "unexpected-departure";
@@ -642,10 +676,10 @@ pub fn check_step(s: &Step, tr: &mut Tracker, viols: &mut Vec<Viol>) -> Decides 
                     if s.op.kind.is_shared_ref_op() {
                         props |= C19;
                     }
-                    out.push(props, class, format!("{}: keys {:?} left the cache; expected contents (LRU first) {:?}, actual {:?}", s.op.kind.name(), missing, ids_x, ids_a));
+                    out.push(props, class, format!("{}: keys {} left the cache; expected contents (LRU first) {}, actual {}", s.op.kind.name(), short(&missing), short(&ids_x), short(&ids_a)));
                 }
                 // entries that should be gone but are present
-                let extra: Vec<u32> = ids_a.iter().copied().filter(|i| !ids_x.contains(i)).collect();
+                let extra: Vec<u32> = ids_a.iter().copied().filter(|i| !has(&set_x, *i)).collect();
                 if !extra.is_empty() && !slot_replaced {
                     let evicted_ids: Vec<u32> = expect_evicted.iter().map(|e| e.id).collect();
                     let all_should_evict = extra.iter().all(|i| evicted_ids.contains(i));
@@ -658,13 +692,13 @@ pub fn check_step(s: &Step, tr: &mut Tracker, viols: &mut Vec<Viol>) -> Decides 
                     } else {
                         (C04, "entry-not-removed")
                     };
-                    out.push(props, class, format!("{}: keys {:?} are still present; expected contents (LRU first) {:?}, actual {:?}", s.op.kind.name(), extra, ids_x, ids_a));
+                    out.push(props, class, format!("{}: keys {} are still present; expected contents (LRU first) {}, actual {}", s.op.kind.name(), short(&extra), short(&ids_x), short(&ids_a)));
                 } else if !extra.is_empty() {
                     out.push(C04 | C12, "fresh-cache-not-empty", format!("{}: fresh cache is not empty: {:?}", s.op.kind.name(), ids_a));
                 }
                 // values of common keys
                 for e in &x {
-                    if let Some(a) = a_list.iter().find(|a| a.id == e.id) {
+                    if let Some(a) = find_a(e.id) {
                         if a.vtok != e.vtok {
                             out.push(C04, "wrong-value", format!("{}: key {} maps to value #{}, the value most recently stored is #{}", s.op.kind.name(), e.id, a.vtok, e.vtok));
                             break;
@@ -672,8 +706,8 @@ pub fn check_step(s: &Step, tr: &mut Tracker, viols: &mut Vec<Viol>) -> Decides 
                     }
                 }
                 // order of common keys
-                let cx: Vec<u32> = ids_x.iter().copied().filter(|i| ids_a.contains(i)).collect();
-                let ca: Vec<u32> = ids_a.iter().copied().filter(|i| ids_x.contains(i)).collect();
+                let cx: Vec<u32> = ids_x.iter().copied().filter(|i| has(&set_a, *i)).collect();
+                let ca: Vec<u32> = ids_a.iter().copied().filter(|i| has(&set_x, *i)).collect();
                 if cx != ca {
                     let mut props = C05;
                     match &s.op.kind {
@@ -685,12 +719,15 @@ pub fn check_step(s: &Step, tr: &mut Tracker, viols: &mut Vec<Viol>) -> Decides 
                     if s.op.kind.is_shared_ref_op() {
                         props |= C19;
                     }
-                    out.push(props, "order", format!("{}: recency order (LRU first) is {:?}, expected {:?}", s.op.kind.name(), ca, cx));
+                    out.push(props, "order", format!("{}: recency order (LRU first) is {}, expected {}", s.op.kind.name(), short(&ca), short(&cx)));
                 }
                 // eviction order: evicted entries must be dropped oldest first
                 if evicting_op && expect_evicted.len() >= 2 {
-                    let toks: Vec<u32> = expect_evicted.iter().filter_map(|e| pre.entries.iter().find(|p| p.id == e.id).map(|p| p.ktok)).collect();
-                    let drops: Vec<u32> = s.events.iter().filter(|e| e.kind == EV_DROP_K && toks.contains(&e.a)).map(|e| e.a).collect();
+                    let mut pre_by_id: Vec<(u32, u32)> = pre.entries.iter().map(|p| (p.id, p.ktok)).collect();
+                    pre_by_id.sort_unstable();
+                    let toks: Vec<u32> = expect_evicted.iter().filter_map(|e| pre_by_id.binary_search_by_key(&e.id, |p| p.0).ok().map(|j| pre_by_id[j].1)).collect();
+                    let tok_set = sorted(&toks);
+                    let drops: Vec<u32> = s.events.iter().filter(|e| e.kind == EV_DROP_K && has(&tok_set, e.a)).map(|e| e.a).collect();
                     if drops.len() == toks.len() && drops != toks {
                         out.push(C03, "eviction-order", format!("{}: evicted keys were dropped in order {:?}, oldest-first order is {:?}", s.op.kind.name(), drops, toks));
                     }
@@ -698,7 +735,7 @@ pub fn check_step(s: &Step, tr: &mut Tracker, viols: &mut Vec<Viol>) -> Decides 
                 // sizes of common keys (transparency / accounting deltas)
                 if s.op.kind.is_capacity_op() {
                     for e in &x {
-                        if let Some(a) = a_list.iter().find(|a| a.id == e.id) {
+                        if let Some(a) = find_a(e.id) {
                             if a.size != e.size {
                                 out.push(C13, "capacity-op-size", format!("{} changed the size of key {} from {} to {}", s.op.kind.name(), e.id, e.size, a.size));
                                 break;
@@ -713,7 +750,7 @@ pub fn check_step(s: &Step, tr: &mut Tracker, viols: &mut Vec<Viol>) -> Decides 
             // exact accounting delta named in C02: expected total vs reported
             if !is_forget && !slot_replaced {
                 let exp_total: u128 = x.iter().map(|e| e.size as u128).sum();
-                let ids_match = ids_x.len() == ids_a.len() && ids_x.iter().all(|i| ids_a.contains(i));
+                let ids_match = set_x == set_a;
                 if ids_match && post.cur as u128 != exp_total && post.cur == post.sum_sizes() {
                     // contents as expected but sizes differ from the model: a size changed outside mutate
                     out.push(C02, "acct-delta", format!("{}: current_size {} but the model's total for the same contents is {}", s.op.kind.name(), post.cur, exp_total));
@@ -894,7 +931,10 @@ pub fn check_step(s: &Step, tr: &mut Tracker, viols: &mut Vec<Viol>) -> Decides 
         dec |= C20;
         let hashes = count_ev(s.events, EV_HASH_ID);
         let departed = match post_t {
-            Some(p) if !slot_replaced => pre.entries.iter().filter(|e| !p.entries.iter().any(|q| q.ktok == e.ktok)).count(),
+            Some(p) if !slot_replaced => {
+                let post_k = sorted(&p.entries.iter().map(|q| q.ktok).collect::<Vec<_>>());
+                pre.entries.iter().filter(|e| !has(&post_k, e.ktok)).count()
+            }
             _ => 0,
         };
         let grew = match (post_t, &s.op.kind) {
@@ -923,7 +963,9 @@ pub fn check_step(s: &Step, tr: &mut Tracker, viols: &mut Vec<Viol>) -> Decides 
         let rebuild_op = grew || s.op.kind.is_capacity_op() || matches!(s.op.kind, OpKind::CloneTo);
         if rebuild_op {
             if let Some(p) = post_t {
-                let mut stored: Vec<u32> = s.events.iter().filter(|e| e.kind == EV_HASH_KEY).map(|e| e.a).filter(|a| pre.entries.iter().any(|q| q.ktok == *a) && p.entries.iter().any(|q| q.ktok == *a)).collect();
+                let pre_k = sorted(&pre.entries.iter().map(|q| q.ktok).collect::<Vec<_>>());
+                let post_k = sorted(&p.entries.iter().map(|q| q.ktok).collect::<Vec<_>>());
+                let mut stored: Vec<u32> = s.events.iter().filter(|e| e.kind == EV_HASH_KEY).map(|e| e.a).filter(|a| has(&pre_k, *a) && has(&post_k, *a)).collect();
                 stored.sort_unstable();
                 for w in stored.windows(2) {
                     if w[0] == w[1] {
@@ -963,7 +1005,8 @@ pub fn check_step(s: &Step, tr: &mut Tracker, viols: &mut Vec<Viol>) -> Decides 
         if slot_replaced {
             // fresh cache: window starts now
         } else if let Some((n, cap0, ins)) = trk.window {
-            let departed = pre.entries.iter().any(|e| !post.entries.iter().any(|q| q.ktok == e.ktok));
+            let post_k = sorted(&post.entries.iter().map(|q| q.ktok).collect::<Vec<_>>());
+            let departed = pre.entries.iter().any(|e| !has(&post_k, e.ktok));
             let fresh_insert = matches!(s.outcome, Outcome::InsertOk(None) | Outcome::TryInsertOk) && post.len == pre.len + 1;
             if departed || s.op.kind.is_capacity_op() {
                 trk.window = None;
